@@ -107,6 +107,19 @@ def run(ctx):
                  templates=[("%s km to m", ["1", "2", "3"]), ("%s m + 2 cm", ["1", "1/2", "0.5"]), ("(%s m) * (2 s)", ["1", "2", "3"]),
                             ("%s m > 2 m", ["1", "2", "3"]), ("(%s m | s) * (1 s)", ["1", "2", "3"]), ("%s m m", ["1", "2"]), ("%s m + 1 s", ["1", "2"]),
                             ("(6 m) / (%s s)", ["1", "2", "3"]), ("%s m^2 to cm^2", ["1", "2"])])
+    REPEAT = [("1 m + 2 m m", None), ("2 s s + 1 s", None), ("4 A A to A", None), ("2 m m + 3 m^2", "qty"), ("2 K K; 1 K", "qty"), ("1 m; 2 m m", "qty"),
+              ("(2 m m) / (1 m)", "qty"), ("3 m m m to m^3", "num"), ("1 m s + 1 s m", "qty"), ("1 m s s + 1 m s", None)]
+    robs = C.run_impl(Q.impl_case, [t for t, _ in REPEAT] + ["2 K K; 1 K", "1 K"], ctx["rundir"], limit=10.0, chunksize=100, procs=1)
+    for (text, kind), o in zip(REPEAT, robs):
+        got = Q.impl_error_class(o)
+        pk = Q.parse_enc(got)[0]
+        if (kind is None and pk != "err") or (kind is not None and pk != kind):
+            rep.violation(dict(kind="mismatch-accepted" if kind is None else "wrong-dimension", top="repeated-unit", op=""),
+                          "C03 fails: %s %s but gives %s" % (text, "mixes dimensions" if kind is None else "is dimensionally fine", got), dict(text=text, impl=got))
+    if Q.impl_error_class(robs[-2]) != Q.impl_error_class(robs[-1]):
+        rep.violation(dict(kind="wrong-dimension", top="repeated-unit", op="history"),
+                      "C03 fails: after evaluating 2 K K, 1 K gives %s; alone it gives %s" % (Q.impl_error_class(robs[-2]), Q.impl_error_class(robs[-1])),
+                      dict(text="2 K K; 1 K", impl=Q.impl_error_class(robs[-2]), expected=Q.impl_error_class(robs[-1])))
     AGG_BAD = ["median({1 m, 2 s, 3 m})", "median({1, 2 m, 3})", "max({1 m, 2 s})", "min({1 s, 2 m, 3 s})", "sum({1 m, 1 s})", "mean({1 m, 1 s})",
                "max({1 m, 2})", "median({1 m, 2 s})", "sum({1 m, 2})", "max(1 m, 2 s)", "min(1 m, 2 s, 3 m)", "{1 m, 2 s}; sum({1 m, 2 s})"]
     AGG_OK = ["median({1 m, 200 cm, 3 m})", "max({1 m, 200 cm})", "sum({1 m, 1 cm})", "mean({1 m, 3 m})", "min({1 km, 2 m})"]
